@@ -14,7 +14,7 @@ SPEC = {
     "translators": [raw_notation],
     "trusted": [
         "C20: translate/c20_raw_notation.py (parses every notation!( … ) of raw_class_file/src/lib.rs with the grammar of the macro's struct/enum arms, fail closed; regenerates coq/C20/RawGen.v at the start of every check; pins the token streams of macros.rs, fn pool_has_utf8, fn pool_get, fn pool_slots and impl ClassFile, which the hand-written interpreters follow; every other impl block must be a `pub fn slots(&self) -> usize { match self { T::A { .. } | … => 2, _ => 1, } }` table, translated into the v_wide flag of the variants; the `Vec<T> slots {…}` field form and `pool_slots(&this.f)` are accepted only in the struct arm and only for a T with such a table)",
-        "C20: coq/C20/Fmt.v — the three generic interpreters fwrite/fread/flen are a hand transcription of macros.rs arm by arm; they are validated against ClassFile::{read,to_bytes,write,length} by the correspondence run (corpus, generated raw values of every declared variant with and without Long/Double pool entries, values outside the hypotheses, pools announced with a wrong count, attribute names designating every index of a pool with 8-byte constants, mutated files)",
+        "C20: coq/C20/Fmt.v — the three generic interpreters fwrite/fread/flen are a hand transcription of macros.rs arm by arm; they are validated against ClassFile::{read,to_bytes,write,length} by the correspondence run (corpus, generated raw values of every declared variant with and without Long/Double pool entries, values outside the hypotheses, pools announced with a wrong count, attribute names designating every index of a pool with 8-byte constants and sitting at the first / a middle / the last pool position also directly behind an 8-byte constant, boundary values of every count width, mutated files); ClassFile::write is additionally run through writers that accept 7..64 bytes per call, are interrupted, sit behind a 16-byte BufWriter, or are slices of exactly / one less than length() bytes (oracle only: the model has no notion of a writer)",
         "C20: coq/C20/Jvms.v — JVMS 4.1-4.7 layouts transcribed by hand in the same declaration language (the specification side of layout_is_jvms)",
         "C20: the harness' strict JVMS walker (harness/src/bin/c20.rs mod jvms) and duke::read_class are the independent consumers used by the oracle that searches failing inputs on the implementation",
     ],
@@ -23,6 +23,8 @@ SPEC = {
         "closed form of `resolves` for attribute variants (attribute_name_index designates the Utf8 entry with the variant's own name, which no earlier variant claims): evaluated by the model on every generated value (case flag hyp) and exercised by the violating-4..7 streams, not stated as a theorem; the closed forms for the stack map frames ARE proved (C20_frames_closed_form)",
     ],
     "assumptions": [
+        "ALARMS THAT ARE NOT PROPERTY FAILURES: (1) the translator pins the token hashes of macros.rs, fn pool_has_utf8, fn pool_get, fn pool_slots and impl ClassFile; any edit of those tokens - also a harmless one (a renamed local, an added doc-free helper call, write(&mut Vec) restructured) - makes the check report 'broken: translator: ... the hand-written model of it must be re-validated'. That line means 'the hand-transcribed interpreters of coq/C20/Fmt.v need a human look and a new pin', not 'the property fails'; a real failure additionally shows up as an oracle VIOLATION with a replay (the partial-writer, position, boundary and walker oracles run on the implementation alone and do not depend on the pins) or as a correspondence disagreement. (2) C20_layout_is_jvms compares the regenerated declaration table with the hand-written JVMS table in one direction of trust: a declaration added to lib.rs for an attribute the hand-written table does not know yet (e.g. a future JVMS attribute) fails the instance theorems although nothing is wrong - the JVMS table in coq/C20/Jvms.v has to be extended",
+        "'fits' in `resolves` covers every count width: u8 counts (MethodParameters, Runtime*ParameterAnnotations: 255 inside, 256 outside), u16 counts and lengths (interfaces, tables, Utf8 length, constant_pool_count = indices + 1: 65535 inside, 65536 outside - written as 0, read back differs or fails), u32 lengths (attribute bodies of 65535/65536/70000 bytes are nothing special). The harness exercises each boundary deterministically (streams boundary / boundary-violating); the values with about 10^5 numbers are oracle-only in the quick tier (a 65536-byte Utf8 is also a correspondence case in the thorough tier), the 254..257 and 255/256-element ones are correspondence cases whose hypothesis flag the model re-computes",
         "class files fit in memory and are shorter than 2^32 bytes (ClassFile::length is u32 arithmetic); the harness is built with overflow checks, so arithmetic overflow inside a notation expression is a panic (modelled as Err), casts `as u8/u16/u32` truncate",
         "read_write holds for values inside `resolves` (numbers and counts fit their widths, each enum value's written tag selects its own variant when read, nowrite/length expressions evaluate back to the stored data) and environments inside `denv_wf` (every vector element type occupies at least one byte); both are decidable and checked on the generated table / by the correspondence run on generated values",
         "write_read (byte-exactness) holds for inputs on which the strict reader succeeds: every computed count/length/tag in the file is the one the declarations compute",
